@@ -36,6 +36,28 @@ theorem c18_rows_perm (rs : List Run) :
     · exact ⟨id, by simp⟩
     · exact ⟨filterMask (mask ((sortedRuns rs).map cells)), by simp⟩
 
+/-- the rows are in non-decreasing order of the sort key (suite, executor, extra args,
+cores, input size, variable, tag, machine), compared as Python compares the key
+tuples: lexicographically, strings by code point -/
+theorem c18_rows_sorted (rs : List Run) :
+    (sortedRuns rs).Pairwise (fun a b => sortKey a ≤ sortKey b) := by
+  have h := List.pairwise_mergeSort (le := keyLe) keyLe_trans keyLe_total rs
+  exact h.imp (fun hab => (keyLe_iff _ _).mp hab)
+
+/-- … hence no later row has a strictly smaller key -/
+theorem c18_rows_sorted_lt (rs : List Run) :
+    (sortedRuns rs).Pairwise (fun a b => ¬ sortKey b < sortKey a) :=
+  (c18_rows_sorted rs).imp (fun h => List.not_lt.mpr h)
+
+/-- the sort is stable (`sorted` is): two runs whose keys are in order keep the order in
+which the run set was iterated — in particular runs that differ only in the benchmark name -/
+theorem c18_rows_stable (rs : List Run) (a b : Run) (hab : sortKey a ≤ sortKey b)
+    (h : [a, b].Sublist rs) : [a, b].Sublist (sortedRuns rs) :=
+  List.pair_sublist_mergeSort keyLe_trans keyLe_total ((keyLe_iff a b).mpr hab) h
+
+example : sortKey ⟨["B", "E", "S", "", "10", "", "", "", ""], [], false⟩
+    ≤ sortKey ⟨["A", "E", "S", "", "2", "", "", "", ""], [], false⟩ := by decide
+
 /-! ### "with the number of non-warm-up data points available for it and their rounded mean, or 'Failed'" -/
 
 /-- the `#Samples` cell is the number of samples; the `Mean (ms)` cell is `Failed`
